@@ -18,6 +18,8 @@ def run(tier, seed):
         run_hex(rep, f"H5xSL batch<=1 prune={prune}", universe="H5", values=("S", "L"), prune=prune, props=P + (("C06",) if prune else ()), batch_len=1, exits=ex,
                 state_cap=6000)
     for prune in (False, True):
+        run_hex(rep, f"H3xSL nested batches prune={prune} (a batch opened on the batch trie, each committed or aborted)", universe="H3", values=("S", "L"),
+                prune=prune, props=P + (("C06",) if prune else ()), batch_len=1, exits=("commit", "abort"), nested=True, direct=False, state_cap=6000)
         run_hex(rep, f"H3xSL batch<=2 prune={prune}", universe="H3", values=("S", "L"), prune=prune, props=P + (("C06",) if prune else ()), batch_len=2,
                 exits=ex, state_cap=6000)
         run_hex(rep, f"H3xSL pairs of consecutive events on ONE live object prune={prune}", universe="H3", values=("S", "L"), prune=prune,
